@@ -127,6 +127,9 @@ class Hook(Generic[T]):
     or itself if called on class.
     """
 
+    _read_depth = 0
+    """Number of hook reads currently computing a value (nested reads of implementations included)."""
+
     def __init__(self, name=None, owner=None):
         self.name = name
         """The name of the hook."""
@@ -219,14 +222,20 @@ class Hook(Generic[T]):
             return result
 
         # try to get value from hook caller
+        Hook._read_depth += 1
         try:
             result = self.get_result(instance)
         except RecursionError as e:
+            if Hook._read_depth > 1:
+                # a runaway recursion fails the outermost read: it can not be handled (e.g. by has_value) halfway up the stack
+                raise
             raise AttributeError(
                 f"Hook call for '{self.name}' on '{instance}' resulted in a RecursionError. "
                 f"This may have one of the following reasons: missing data, interference of plugins. "
                 f"Double check if you have provided all necessary input data."
             ) from e
+        finally:
+            Hook._read_depth -= 1
 
         if result is None:
             raise AttributeError(f"Hook call for '{self.name}' on '{instance}' could not provide a value.")
